@@ -273,9 +273,7 @@ def run(ctx):
     # ProcessXor hands the inner construct the whole region: the transform keeps the byte count (shared with C15.R7)
     from ..core import Ctx as _Ctx
     from . import C16, C15
-    sub = _Ctx("C16", ctx.tier, ctx.root, model=ctx.model)
-    sub._summ = summariser(ctx)
-    C16.run(sub)
+    sub = shared_run(ctx, C16, prop="C16")
     for e in sub.errors:
         ctx.error("shared C16 rules: " + e)
     for o in sub.obligations:
@@ -288,12 +286,9 @@ def run(ctx):
     ctx.floor("C08.R6", 8 + 60)
     # Pointer inside a region: tell, seek, inner construct and the restoring seek all act on one and the same stream, so the region's stream is
     # left where it was (shared with C09.R2)
-    sub = _Ctx("C09", ctx.tier, ctx.root, model=ctx.model)
-    sub._summ = summariser(ctx)
-    sub._shared_into_c08 = True
     if getattr(ctx, "_shared_into_c09", False):
         return
-    C09.run(sub)
+    sub = shared_run(ctx, C09, prop="C09", flags=("_shared_into_c08",))
     for e in sub.errors:
         ctx.error("shared C09 rules: " + e)
     for o in sub.obligations:
